@@ -7,7 +7,9 @@
 //! input JSON: {"acts":[["wake",n],["in","abc"],["winch"],["term"],["write",len],["pause",bool],["poll",ms],
 //!                      ["poll_wake",d]   poll(None) entered first, wake() from another thread d ms later
 //!                      ["poll_winch",d]  poll(None) entered first, SIGWINCH sent to this thread d ms later (EINTR in select)
-//!                      ["hup"]           the peer closes the master side],
+//!                      ["hup"]           the peer closes the master side
+//!                      ["eagain",n]      the next n writes of the terminal object to the tty fail with EAGAIN (verif-hooks
+//!                                        fault script; consumed by the next poll, which reports how many it used)],
 //!              "end":"drop"|"drop_paused"|"run_err"|"render_quit"}
 //!             ms = -1: no timeout (only generated when something is outstanding)
 //!             {"stress":{"threads":t,"wakes":w}}
@@ -185,6 +187,11 @@ pub fn run_script(input: &Value) -> Case {
                     peer.pause(p); // acknowledged by the peer thread
                     acts_coq.push(format!("APause {}", cbool(p)));
                 }
+                "eagain" => {
+                    let n = a[1].as_u64().unwrap_or(1) as usize;
+                    surf_n_term::unix_verif::set_write_script(vec![surf_n_term::unix_verif::WriteFault::WouldBlock; n]);
+                    acts_coq.push(format!("AFault {}", n));
+                }
                 "hup" => {
                     peer.ctl(Ctl::Close);
                     // wait until the slave sees it
@@ -208,6 +215,7 @@ pub fn run_script(input: &Value) -> Case {
                     let tmo = if ms < 0 { None } else { Some(Duration::from_millis(ms as u64)) };
                     let done = std::sync::atomic::AtomicBool::new(false);
                     let waker = term.waker();
+                    let eagain0 = surf_n_term::unix_verif::write_fault_counts()[2];
                     let t0 = Instant::now();
                     let (c, v) = std::thread::scope(|sc| {
                         if during == "DWake" {
@@ -246,15 +254,18 @@ pub fn run_script(input: &Value) -> Case {
                         }
                     });
                     let elapsed = t0.elapsed().as_millis() as u64;
+                    // how often the loop went round on a tty that was reported writable and took nothing
+                    let spins = surf_n_term::unix_verif::write_fault_counts()[2] - eagain0;
+                    surf_n_term::unix_verif::set_write_script(vec![]);
                     npolls += 1;
                     // bytes sent so far and chunks left when the poll returned: what the kernel's short writes did to
                     // the queue (the loop condition depends on it); given to the model as an oracle
                     let (sent, pend) = (term.stats().send, term.frames_pending());
                     let tm = if ms < 0 { "None".to_string() } else { format!("(Some {})", ms) };
                     let du = if during == "DNone" { "DNone".to_string() } else { format!("({} {})", during, delay) };
-                    acts_coq.push(format!("APoll {} {} {} {} {}", tm, sent, pend, elapsed, du));
+                    acts_coq.push(format!("APoll {} {} {} {} {} {}", tm, sent, pend, elapsed, du, spins));
                     obs_coq.push(c);
-                    obs_json.push(json!({"result": v, "elapsed_ms": elapsed, "send": sent, "pending": pend}));
+                    obs_json.push(json!({"result": v, "elapsed_ms": elapsed, "send": sent, "pending": pend, "eagain_rounds": spins}));
                 }
                 _ => {}
             }
@@ -265,6 +276,12 @@ pub fn run_script(input: &Value) -> Case {
     let mut via: Option<(String, Value)> = None;
     if !hung_up {
         peer.pause(end == "drop_paused");
+    }
+    if end == "drop_flood" {
+        // a terminal that keeps sending events (mouse motion, typing) and never answers the sync request
+        peer.ctl(Ctl::AnswerDa(false));
+        peer.ctl(Ctl::Flood { every_ms: 40, count: 220 });
+        std::thread::sleep(Duration::from_millis(60));
     }
     if end == "run_err" || end == "render_quit" {
         // leave through Terminal::run / run_render returning an error, then drop
@@ -307,13 +324,16 @@ pub fn run_script(input: &Value) -> Case {
     }
     // a session that ran into a wait it was not scripted to have (an infinite poll saved by the watchdog, a drop
     // that sat out dispose's one-second polls with the peer reading)
-    if obs_coq.iter().any(|o| o == "OH") || (end != "drop_paused" && !hung_up && drop_ms > 900) {
+    if obs_coq.iter().any(|o| o == "OH") || (end != "drop_paused" && end != "drop_flood" && !hung_up && drop_ms > 900) {
         tags.push("unexpected_wait".into());
     }
     let tail_txt: String = tail.iter().rev().take(120).rev().map(|b| if *b == 0x1b { "^[".to_string() } else if (32..127).contains(b) { (*b as char).to_string() } else { format!("<{}>", b) }).collect();
     j["impl"] = json!({"polls": obs_json, "restored": restored, "closing_delivered": closing, "drop_ms": drop_ms,
                        "left_through": via.as_ref().map(|v| v.1.clone()), "after_drop_tail": tail_txt});
     let endk = if hung_up { "EHup" } else if end == "drop_paused" { "EDropPaused" } else { "EDrop" };
+    if end == "drop_flood" {
+        return Case { coq: format!("CF {} {}", drop_ms, cbool(restored)), json: j, tags, nontrivial: true };
+    }
     let coq = match &via {
         None => format!("CS {} {} {} {} {}", clist(acts_coq), clist(obs_coq), endk, cbool(restored), cbool(closing)),
         Some((c, _)) => format!("CR {} {} {} {} {}", clist(acts_coq), clist(obs_coq), c, cbool(restored), cbool(closing)),
@@ -391,7 +411,129 @@ fn blocked_wake_script() -> Value {
     json!({"acts": [["pause", true], ["write", 300000], ["wake", 1], ["poll", -1], ["poll", 0], ["pause", false], ["poll", 5]], "end": "drop"})
 }
 
+/// `SystemTerminal::open` failing half-way (no file descriptors left for the signal and waker sockets): no object
+/// comes into existence, nothing will ever be dropped - are the line settings still the original ones?
+fn run_open_fails(input: &Value) -> Case {
+    let _g = SERIAL.lock().unwrap_or_else(|e| e.into_inner());
+    let mut j = input.clone();
+    let (master, path) = match open_pty() {
+        Ok(x) => x,
+        Err(e) => {
+            j["impl"] = json!({ "error": e });
+            return Case { coq: "CO false false".into(), json: j, tags: vec!["infra-error".into()], nontrivial: false };
+        }
+    };
+    let before = tcgetattr(master.as_raw_fd());
+    // the lowest free descriptor numbers: the tty takes the first, the socket pair would need two more
+    let used: std::collections::BTreeSet<i32> = std::fs::read_dir("/proc/self/fd")
+        .map(|d| d.filter_map(|e| e.ok()).filter_map(|e| e.file_name().to_string_lossy().parse().ok()).collect())
+        .unwrap_or_default();
+    let mut free = (0..4096).filter(|n| !used.contains(n));
+    let _f1 = free.next().unwrap_or(0);
+    let f2 = free.next().unwrap_or(0);
+    let mut old = libc::rlimit { rlim_cur: 0, rlim_max: 0 };
+    unsafe { libc::getrlimit(libc::RLIMIT_NOFILE, &mut old) };
+    let tight = libc::rlimit { rlim_cur: (f2 + 1) as libc::rlim_t, rlim_max: old.rlim_max };
+    unsafe { libc::setrlimit(libc::RLIMIT_NOFILE, &tight) };
+    let r = SystemTerminal::open(&path);
+    unsafe { libc::setrlimit(libc::RLIMIT_NOFILE, &old) };
+    let failed = r.is_err();
+    drop(r);
+    let after = tcgetattr(master.as_raw_fd());
+    let restored = match (&before, &after) {
+        (Some(b), Some(a)) => termios_key(b) == termios_key(a),
+        _ => false,
+    };
+    j["impl"] = json!({"open_failed": failed, "settings_unchanged": restored});
+    Case { coq: format!("CO {} {}", cbool(failed), cbool(restored)), json: j, tags: vec!["open_fails".into()], nontrivial: true }
+}
+
+/// The escape-sequence resize mode: the ioctl reports no pixel size, the terminal answers the size queries, so the
+/// library asks the terminal for its size on SIGWINCH and turns the answers into Resize events.
+fn run_escsize(input: &Value) -> Case {
+    let _g = SERIAL.lock().unwrap_or_else(|e| e.into_inner());
+    let mut j = input.clone();
+    let bad = |j: Value, e: String| {
+        let mut j = j;
+        j["impl"] = json!({ "error": e });
+        Case { coq: "CE 0 0 0 false".into(), json: j, tags: vec!["infra-error".into()], nontrivial: false }
+    };
+    let (master, path) = match open_pty() {
+        Ok(x) => x,
+        Err(e) => return bad(j, e),
+    };
+    let master_fd = master.as_raw_fd();
+    set_winsize(master_fd, 30, 100); // no pixel size
+    let before = tcgetattr(master_fd);
+    std::env::set_var("TERM", "xterm-256color");
+    std::env::remove_var("COLORTERM");
+    let peer = Peer::spawn(master, vec![Rate { size: 65536, sleep_us: 0 }], true);
+    peer.ctl(Ctl::AnswerSize(Some((30, 100, 600, 1000))));
+    std::thread::sleep(Duration::from_millis(5));
+    let mut term = match SystemTerminal::open(&path) {
+        Ok(t) => t,
+        Err(e) => {
+            let _ = peer.finish();
+            return bad(j, format!("open failed: {:?}", e));
+        }
+    };
+    let size_mode = term.size().map(|s| s.pixels.height == 600).unwrap_or(false);
+    let winches = input["winches"].as_u64().unwrap_or(1);
+    let (mut resizes, mut others, mut polls) = (0u64, 0u64, 0u64);
+    let mut kinds = vec![];
+    for _ in 0..winches {
+        unsafe { libc::raise(libc::SIGWINCH) };
+        // the answer needs a round trip through the peer thread
+        let t0 = Instant::now();
+        let mut got = false;
+        while t0.elapsed() < Duration::from_millis(1500) {
+            polls += 1;
+            match term.poll(Some(Duration::from_millis(50))) {
+                Ok(Some(TerminalEvent::Resize(_))) => {
+                    resizes += 1;
+                    got = true;
+                    kinds.push("resize");
+                }
+                Ok(Some(TerminalEvent::Size(_))) => kinds.push("size"),
+                Ok(Some(_)) => {
+                    others += 1;
+                    kinds.push("other");
+                }
+                Ok(None) => {
+                    if got {
+                        break;
+                    }
+                }
+                Err(_) => {
+                    others += 100;
+                    break;
+                }
+            }
+        }
+    }
+    drop(term);
+    let after = tcgetattr(master_fd);
+    let _ = peer.finish();
+    let restored = match (&before, &after) {
+        (Some(b), Some(a)) => termios_key(b) == termios_key(a),
+        _ => false,
+    };
+    j["impl"] = json!({"escape_size_mode": size_mode, "resize_events": resizes, "other_events": others, "polls": polls, "kinds": kinds, "restored": restored});
+    Case {
+        coq: format!("CE {} {} {} {}", winches, resizes, others, cbool(size_mode && restored)),
+        json: j,
+        tags: vec!["escsize".into()],
+        nontrivial: true,
+    }
+}
+
 pub fn run(input: &Value) -> Case {
+    if input["escsize"].as_bool().unwrap_or(false) {
+        return run_escsize(input);
+    }
+    if input["open_fails"].as_bool().unwrap_or(false) {
+        return run_open_fails(input);
+    }
     if !input["stress"].is_null() {
         run_stress(input)
     } else if input["blocked_wake"].as_bool().unwrap_or(false) {
@@ -409,6 +551,7 @@ fn gen_script(rng: &mut Rng) -> Value {
     let n = 3 + rng.below(14);
     let mut paused = false;
     let mut fresh = false; // a request was made since the last poll: something is certainly outstanding
+    let mut fresh_wake = false; // ... a wake request
     let mut quiet = true; // nothing can be outstanding: every request so far was followed by enough polls
     let mut since = 0usize; // polls since the last request
     let mut owed = 0usize; // upper bound on the events still to come
@@ -419,6 +562,7 @@ fn gen_script(rng: &mut Rng) -> Value {
                 let top = if rng.chance(1, 5) { 400 } else { 5 };
                 acts.push(json!(["wake", 1 + rng.below(top)]));
                 fresh = true;
+                fresh_wake = true;
                 owed += 1;
             }
             18..=33 => {
@@ -443,14 +587,15 @@ fn gen_script(rng: &mut Rng) -> Value {
                 let len = if big { 20000 + rng.below(150000) } else { 1 + rng.below(2000) };
                 acts.push(json!(["write", len]));
             }
-            56..=61 => {
+            56..=59 => {
                 paused = !paused;
                 acts.push(json!(["pause", paused]));
             }
+            60..=61 => acts.push(json!(["eagain", 1 + rng.below(300)])),
             62..=66 => {
                 // a request that arrives while this thread sits in an infinite poll: only when nothing else can be
                 // outstanding, so that the latency measured is the request's
-                if quiet && owed == 0 {
+                if quiet && owed == 0 && !paused {
                     let d = 2 + rng.below(30);
                     acts.push(json!([if rng.chance(2, 3) { "poll_wake" } else { "poll_winch" }, d]));
                 } else {
@@ -458,14 +603,16 @@ fn gen_script(rng: &mut Rng) -> Value {
                     owed = owed.saturating_sub(1);
                 }
                 fresh = false;
+                fresh_wake = false;
             }
             _ => {
-                // an infinite poll only when it is certain to return: something is outstanding (since the third fix
-                // also with the peer paused and output stalled)
-                let inf = fresh && rng.chance(1, 3);
+                // an infinite poll only when it is certain to return: a wake request is outstanding (it ends the
+                // poll also with the peer paused and output stalled), or something else is and the peer reads
+                let inf = (fresh_wake || (fresh && !paused)) && rng.chance(1, 3);
                 let ms: i64 = if inf { -1 } else if rng.chance(3, 5) { 0 } else { 1 + rng.below(8) as i64 };
                 acts.push(json!(["poll", ms]));
                 fresh = false;
+                fresh_wake = false;
                 owed = owed.saturating_sub(1);
             }
         }
@@ -482,9 +629,8 @@ fn gen_script(rng: &mut Rng) -> Value {
         1 => "render_quit",
         _ => "drop",
     };
-    // a hang-up only when no SIGWINCH can be outstanding: its handling asks the (gone) tty for its size and the
-    // error of that ioctl is outside the model
-    if owed == 0 && rng.chance(1, 8) {
+    // a hang-up at any point (with a SIGWINCH outstanding the size query of its handling fails on the dead tty)
+    if rng.chance(1, 8) {
         acts.push(json!(["hup"]));
         acts.push(json!(["poll", 0]));
         return json!({"acts": acts, "end": "drop"});
@@ -507,7 +653,13 @@ pub fn generate(rng: &mut Rng, n: usize, _tier: &str) -> Vec<Value> {
     v.push(json!({"acts": [["pause", true], ["write", 300000], ["poll", 3]], "end": "drop_paused"}));
     v.push(json!({"stress": {"threads": 4, "wakes": 300}}));
     v.push(json!({"blocked_wake": true}));
+    v.push(json!({"escsize": true, "winches": 2}));
+    // (corpus/C17: failed open, event flood at drop, a key arriving during a 1 MiB frame)
+    // ... with the peer stalled only a wake request cuts the wait short, the key follows it
+    v.push(json!({"acts": [["pause", true], ["write", 200000], ["in", "k"], ["wake", 1], ["poll", -1], ["poll", 20], ["pause", false], ["poll", 5]], "end": "drop"}));
     v.push(json!({"acts": [["poll_wake", 20], ["poll", 0], ["poll_winch", 15], ["poll", 0]], "end": "drop"}));
+    v.push(json!({"acts": [["write", 9000], ["wake", 2], ["eagain", 500], ["poll", -1], ["poll", 0], ["poll", 3]], "end": "drop"}));
+    v.push(json!({"acts": [["write", 3000], ["in", "ab"], ["poll", 0], ["write", 50], ["eagain", 400], ["poll", 20], ["poll", 0], ["poll", 0]], "end": "drop"}));
     v.push(json!({"acts": [["in", "k"], ["hup"], ["poll", 0], ["poll", 0]], "end": "drop"}));
     v.push(json!({"acts": [["wake", 1], ["poll", 0]], "end": "run_err"}));
     v.push(json!({"acts": [["write", 5000], ["poll", 0], ["winch"]], "end": "render_quit"}));
